@@ -18,6 +18,7 @@
                    '((size_t)__CPROVER_POINTER_OFFSET(right) < g_q && g_q < g_n) ==> C19_WS(g_data0[g_q])'],
     'decreases': '(size_t)__CPROVER_POINTER_OFFSET(right)'},
  ],
+ 'fallback': 'ghost-free',
  'witness': {'unwind': 9},
 } @*/
 #include "c19_harness.h"
@@ -44,5 +45,17 @@ void harness(void)
         __CPROVER_assert(!(g_ts + g_tl <= q && q < n) || C19_WS(data[q]), "trim: everything behind the result is white space");
         __CPROVER_assert(!C19_WS(data[g_ts]) && !C19_WS(data[g_ts + g_tl - 1]), "trim: the result starts and ends with a non-white-space byte");
     }
+#ifdef WITNESS_MODE
+    /* direct reference: first / last non-white-space byte */
+    {
+        size_t lo = 0, hi = n;
+        while (lo < n && C19_WS(data[lo])) lo++;
+        while (hi > lo && C19_WS(data[hi - 1])) hi--;
+        if (lo == n)
+            __CPROVER_assert(g_empty == 1 && g_ntok == 0, "trim: empty / all white space gives the empty string (direct reference)");
+        else
+            __CPROVER_assert(g_empty == 0 && g_ntok == 1 && g_ts == lo && g_tl == hi - lo, "trim: the slice from the first to the last non-white-space byte (direct reference)");
+    }
+#endif
     CANARY("trim end reachable");
 }
